@@ -307,3 +307,27 @@ func containsStr(s, sub string) bool {
 	}
 	return false
 }
+
+// Near128 returns, for every k in 1..19, coefficients a whose exact rescaling a*10^k lands just below, at and
+// just above 2^128 (and 2^64 for the short ones): the carry out of the 128-bit inline representation.
+func Near128() (out []struct {
+	A *big.Int
+	K int
+}) {
+	for k := 1; k <= 19; k++ {
+		pk := ref.Pow10(k)
+		for _, top := range []*big.Int{pow2(128), new(big.Int).Add(pow2(128), new(big.Int).Mul(pk, pow2(63))), pow2(64)} {
+			base := new(big.Int).Quo(top, pk)
+			for j := int64(-1); j <= 2; j++ {
+				a := new(big.Int).Add(base, big.NewInt(j))
+				if a.Sign() > 0 {
+					out = append(out, struct {
+						A *big.Int
+						K int
+					}{a, k})
+				}
+			}
+		}
+	}
+	return out
+}
